@@ -131,7 +131,7 @@ def run(ctx, res):
         c['sources'][0].update({'cols': ['id', 'c1', 'c2', 'c3'], 'rows': rows, 'dtypes': {'c1': 'Int64', 'c2': 'boolean', 'c3': 'string'}})
         c['sources'][0].pop('null_style', None)
         cases.append(c)
-    family.run_family(ctx, res, cases, features)
+    family.run_family(ctx, res, cases, features, style_fn=style_fn)
     # second oracle on the same cases, implementation only: a null word that is not in the data must not appear
     batch = family.Batch(ctx)
     for rec in batch.run(cases[:ctx.scale(120, 2000)], want_spec=False):
@@ -146,4 +146,8 @@ def run(ctx, res):
                                            'replay': rec['case']})
 
 
-replay = family.replay_family
+from .c01 import style_fn       # spellings: YARRRML / legacy vocabulary / shared subject maps by a hash of the document
+
+
+def replay(ctx, res, payload):
+    family.replay_family(ctx, res, payload, style_fn=style_fn)
